@@ -1206,7 +1206,7 @@ class LogixDriver(CIPDriver):
                     self._sequence,
                     parsed_tag["plc_tag"],
                     parsed_tag["tag_info"],
-                    -1,
+                    -1 * (1 + parsed_tag["request_id"]),  # unique per packet: write() pops results by this id
                     self._cfg["use_instance_ids"],
                 )
 
